@@ -103,7 +103,7 @@ theorem share_ids_fresh (q q' : Q) (ins outs : List Buf) (t : Nat) (evs : List E
         have := hc hi
         omega
       · omega
-    obtain ⟨q3, c3, e3, e, _, _, _, _, _, _, _, _, hs⟩ := addDirect_inv q q.out ins outs h (by omega) hz hcap
+    obtain ⟨q3, c3, e3, e, _, _, _, _, _, _, _, _, hs, _⟩ := addDirect_inv q q.out ins outs h (by omega) hz hcap
     rw [e] at hb
     simp only [Option.some.injEq, Prod.mk.injEq] at hb
     rw [← hb.1, hs]; omega
